@@ -447,6 +447,7 @@ func TestWorker(t *testing.T) {
 		if len(res.Violations) > 0 || res.Abort != "" || res.LeftTasks > 0 {
 			emit(outLine{T: "run", I: idx, Seed: seed, Res: res, NT: nt})
 		}
+		emit(outLine{T: "end", I: idx}) // a death after this line is not this run's
 		idx += job.Stride
 		if res.LeftTasks > 0 || strings.HasPrefix(res.Abort, "bubble") {
 			break
